@@ -172,6 +172,12 @@ def stage(V, tier):
             for k in range(1, kmax + 1):
                 for kind in ('fault', 'key', 'return'):
                     recs.append(run(name, mode, k, kind))
+    # binding self-test: the same traces with one pop removed must be flagged by the specification
+    n_real = len(recs)
+    for r in recs[:40]:
+        pops = [i for i, e in enumerate(r['ev']) if e['e'] == 'pop']
+        if pops:
+            recs.append(dict(r, ev=r['ev'][:pops[-1]] + r['ev'][pops[-1] + 1:], corrupted=True))
     out = {}
     res = tlc.run('ObsStack', 'SPECIFICATION Spec\nINVARIANT Verdict\nCHECK_DEADLOCK FALSE\n',
                   files={'traces.json': json.dumps([{'ev': [dict(e) for e in r['ev']], 'initial': r['initial']} for r in recs])},
@@ -182,6 +188,11 @@ def stage(V, tier):
         v = out.get(i)
         if v is None:
             raise tlc.TLCFailure('no verdict for stack trace %d' % i)
+        if r.get('corrupted'):
+            if not v['bad']:
+                common.machinery_failure('binding self-test: a stack trace with a pop removed was accepted by ObsStack')
+            V.count('binding_selftest_corrupted_traces_rejected')
+            continue
         V.count('tree_traces_validated')
         if v['bad'] or v['open'] or not r['same_frames'] or not r['level_same']:
             V.violation({'kind': 'stack', 'clause': v['bad'] or 'frames differ', 'source': r['source'], 'mode': r['mode'],
@@ -190,7 +201,7 @@ def stage(V, tier):
                          'cls': 'tree-' + (v['bad'] or 'frames')})
         else:
             V.count('behaviours_conform')
-    return {'tree_stack_traces': len(recs), 'tree_states': res.distinct}
+    return {'tree_stack_traces': n_real, 'tree_states': res.distinct}
 
 
 def repo_test_files():
